@@ -7,10 +7,19 @@ import (
 	"github.com/go-json-experiment/json/internal/zzverif/zzspec"
 )
 
-// VerifC01IsValid: Value.IsValid accepts exactly the RFC 8259 / RFC 7493 grammar.
-func VerifC01IsValid(n int, allowUTF8, allowDup bool) {
+func zzInput(n, alpha int) []byte {
 	b := vrt.Bytes("b", n)
-	vrt.InputBits(8 * n)
+	if alpha == 0 {
+		vrt.InputBits(8 * n)
+	} else {
+		vrt.Assume(zzspec.InAlphabet(b, alpha))
+	}
+	return b
+}
+
+// VerifC01IsValid: Value.IsValid accepts exactly the RFC 8259 / RFC 7493 grammar.
+func VerifC01IsValid(n, alpha int, allowUTF8, allowDup bool) {
+	b := zzInput(n, alpha)
 	got := Value(b).IsValid(AllowInvalidUTF8(allowUTF8), AllowDuplicateNames(allowDup))
 	want := zzspec.ValidText(b, !allowUTF8, !allowDup, 10000)
 	if want {
@@ -22,4 +31,52 @@ func VerifC01IsValid(n int, allowUTF8, allowDup bool) {
 	vrt.Assert("C01/isvalid-iff-grammar", got == want)
 }
 
-var _ = io.EOF
+// VerifC01Tokens: a Decoder read token by token accepts exactly the concatenations of JSON
+// texts; io.EOF is reported only at a value boundary.
+func VerifC01Tokens(n, alpha int, allowUTF8, allowDup bool) {
+	b := zzInput(n, alpha)
+	d := new(Decoder)
+	d.s.reset(b, nil, AllowInvalidUTF8(allowUTF8), AllowDuplicateNames(allowDup))
+	values := 0
+	var err error
+	for {
+		_, err = d.ReadToken()
+		if err != nil {
+			break
+		}
+		if d.StackDepth() == 0 {
+			values++
+		}
+	}
+	wantN, tail := zzspec.ScanStream(b, !allowUTF8, !allowDup, 10000)
+	vrt.Observe("values", values)
+	vrt.Observe("eof", err == io.EOF)
+	if tail == 0 {
+		vrt.Cover("clean-end")
+	} else {
+		vrt.Cover("bad-end")
+	}
+	vrt.Assert("C01/tokens/eof-iff-clean-stream", (err == io.EOF) == (tail == 0))
+	vrt.Assert("C01/tokens/value-count", values == wantN)
+}
+
+// VerifC01Values: the same through ReadValue.
+func VerifC01Values(n, alpha int, allowUTF8, allowDup bool) {
+	b := zzInput(n, alpha)
+	d := new(Decoder)
+	d.s.reset(b, nil, AllowInvalidUTF8(allowUTF8), AllowDuplicateNames(allowDup))
+	values := 0
+	var err error
+	for {
+		_, err = d.ReadValue()
+		if err != nil {
+			break
+		}
+		values++
+	}
+	wantN, tail := zzspec.ScanStream(b, !allowUTF8, !allowDup, 10000)
+	vrt.Observe("values", values)
+	vrt.Observe("eof", err == io.EOF)
+	vrt.Assert("C01/values/eof-iff-clean-stream", (err == io.EOF) == (tail == 0))
+	vrt.Assert("C01/values/value-count", values == wantN)
+}
